@@ -353,6 +353,7 @@ def gen_generator():
             idx = [regs[a[0].text] for a in args[1:]]
             assert len(idx) == 3 and all(len(a) == 1 for a in args[1:])
             pairs.append((salt, *idx))
+        assert pairs, "no `self.buckets.increment(Self::b_mapping(…))` statement found in update()"
     except Exception as e:
         fail("bucket pairings", str(e))
         pairs = []
@@ -478,6 +479,7 @@ def gen_generator():
             b = parse_int(tg[i + 6].text)
             recv = tg[i - 2].text
             sel.append((recv, a, b))
+        assert len(sel) == 3, f"expected three select_nth_unstable(SIZE_BUCKETS / a - b) calls, found {len(sel)}"
     except Exception as e:
         fail("select_nth_unstable args", str(e))
         sel = []
